@@ -196,6 +196,8 @@ class BOMixin:
     def _bo(self, v, st, node):
         if isinstance(v, HBO):
             return v
+        if isinstance(v, BODType):
+            return HBO(v.names, v.order, {k: z3.IntVal(0) for k in v.order})
         if isinstance(v, Ref) and isinstance(st.get(v), HBO):
             return st.get(v)
         raise SpecError("not a byte-order array")
